@@ -212,6 +212,7 @@ def check(ctx):
     alg = g.stmt_nodes_calling(call("align"))
     ok = bool(pz) and bool(fill) and g.always_after(fill, pz) and g.must_pass(pz + alg)
     ctx.ob("C01.c", "RecordTensor.reset: fill then pointer := 0 (or align(0) when fill is None)", ok, "", rs.where)
+    reset_semantics(ctx, "C01.c")
     for name in ("initialize", "deinitialize"):
         f = meth(name)
         g = CFG(f.node)
@@ -325,6 +326,23 @@ def check(ctx):
     c01_lemmas.check(ctx, rt)
     ctx.assume("torch.cat / gather / scatter / roll / index assignment implement their documented semantics; index assignment casts to the storage dtype")
     ctx.assume("the stored pointer is a residue in [0, recordsz) (established by initialize/reset = 0 and preserved by incr/decr/align: L3, C01.c)")
+
+
+def reset_semantics(ctx, rule):
+    """RecordTensor.reset(fill): storage is overwritten for *every* fill other than None (0 / False / 0.0 included)."""
+    P = ctx.prog
+    rs = P.cls("RecordTensor").methods.get("reset")
+    if rs is None:
+        raise AnalysisError("anchor vanished: RecordTensor.reset")
+    ctx.touch(rs)
+    g = CFG(rs.node)
+    fill = g.stmt_nodes_calling(lambda c: isinstance(c.func, ast.Attribute) and c.func.attr == "fill_")
+    gs = [(ast.unparse(t), lab) for n in fill for t, lab in g.guards_of(n)]
+    ok = bool(fill) and (("fill is not None", "T") in gs or ("fill is None", "F") in gs) and \
+        not any(t in ("fill", "bool(fill)") for t, _ in gs)
+    ctx.ob(rule, "RecordTensor.reset(fill) overwrites storage whenever fill is not None (falsy fills included)", ok,
+           f"guards of the fill: {gs}" + ("" if ok else " — reset(0) / reset(False), which every synapse clear() uses, would leave the old history in place"),
+           rs.where)
 
 
 def _tiling(P, f, pieces, name):
